@@ -173,7 +173,7 @@ impl<'a> WireFormat<'a> for Name<'a> {
         let mut name_size = 0usize;
 
         loop {
-            if *position >= data.len() {
+            if *position >= data.len() || pointer_position >= data.len() {
                 return Err(crate::SimpleDnsError::InsufficientData);
             }
 
